@@ -8,6 +8,7 @@ Postcondition (from the statement), with V' = man * 2^exp the value rounded to p
     2^emin <= |V'| <= largest  =>  result is exactly V' (= RN(V), the nearest float, which is normal)
     |V'| >= 2^(emax+1)         =>  result is inf of the right sign
     |V'| <  2^(emin-p)         =>  result is a zero of the right sign (half the smallest subnormal)
+    2^(emin-p) < |V| < 2^(emin-p+1), no flushing  =>  result is the smallest subnormal of the right sign (V the input)
     flush requested and |V'| < 2^emin => zero of the right sign;   the sign of every result is the sign of V
 Option plumbing: flush_subnormals in {unspecified, False, True} must reach mpf2float as False, False, True; the
 extra precision requested is int(prec * multiplier) + extra_prec (finite-case runs of the real methods).
@@ -83,6 +84,7 @@ def run_mpf2float(rep, tier):
                     del calls[:]
                     # input tuple (before normalisation): any positive mantissa, any exponent
                     e.assume(man0 > 0)
+                    e.assume(z3.Extract(0, 0, man0) == 1)  # mpmath keeps the mantissa of a non-zero mpf odd
                     e.assume(z3.And(exp0 > -3000, exp0 < 3000, bc0 > 0, bc0 < 4000))
                     # contract of _normalize (consequences of man*2^exp = RNE_p(V))
                     e.assume(z3.And(man > 0, man < (1 << p), z3.Extract(0, 0, man) == 1))
@@ -132,7 +134,13 @@ def run_mpf2float(rep, tier):
                     subn = e1 - 1 < emin
                     neg = z3.BoolVal(bool(sign))
                     signed_zero = z3.And(z3.fpIsZero(re_), z3.fpIsNegative(re_) == neg)
+                    # strictly between half the smallest subnormal and the smallest subnormal (on the UNROUNDED input: its
+                    # mantissa is odd, so it is a power of two exactly when the mantissa is 1): the nearest value is the
+                    # smallest subnormal, and "zero below half the smallest subnormal" does not cover it
+                    above_half = z3.And(z3.Not(z3.BoolVal(flush)), exp0 + bc0 == emin - p + 1, man0 != 1)
+                    smallest_bits = z3.Concat(z3.BitVecVal(sign, 1), z3.BitVecVal(1, eb + p - 1))
                     goal = z3.And(
+                        z3.Implies(above_half, z3.fpToIEEEBV(re_) == smallest_bits),
                         z3.Implies(z3.And(normal, z3.Not(z3.And(z3.BoolVal(flush), subn))), z3.fpToIEEEBV(re_) == spec_bits),
                         z3.Implies(over, z3.And(z3.fpIsInf(re_), z3.fpIsNegative(re_) == neg)),
                         z3.Implies(tiny, signed_zero),
@@ -259,7 +267,7 @@ def native_replay(o):
         normal = ref >= Fraction(2) ** emin
         if meta["flush"] and not normal:
             want = t(-0.0) if V < 0 else t(0.0)
-        decided_case = normal or bool(numpy.isinf(want)) or meta["flush"] or a < Fraction(2) ** (emin - p)
+        decided_case = normal or bool(numpy.isinf(want)) or meta["flush"] or a < Fraction(2) ** (emin - p) or Fraction(2) ** (emin - p) < a < Fraction(2) ** (emin - p + 1)
         bad = decided_case and not (got == want and numpy.signbit(got) == numpy.signbit(want))
         info["tried"].append(dict(man0=str(man0)[:40], exp0=exp0, got=repr(got), want=repr(want)))
         if bad:
@@ -273,7 +281,7 @@ def build(tier):
     rep.trust("z3 5.1 QF_BV/QF_FP", "E2 models: dtype(int) = RNE conversion, numpy.ldexp(x, k) = one correctly rounded scaling, numpy.isinf/isfinite, Python ints as 64-bit vectors with no-overflow side obligations")
     rep.assume(
         "mpmath.libmp.libmpf._normalize(sign, man, exp, bc, prec, 'n') returns the value rounded to prec bits, ties to even, with an odd mantissa and bc = bit_length(man) (ASSUMED contract on mpmath; only consequences are used)",
-        "the mpf is finite and non-zero; exponents within +-3000 (every format's range is far inside)",
+        "the mpf is finite and non-zero with an odd mantissa (the invariant mpmath keeps for every mpf it constructs); exponents within +-3000 (every format's range is far inside)",
         "the evaluation of the user function inside mpmath at the extended precision, and the resulting double rounding, are outside any contract here",
         "float2mpf / nptomp exactness is C13's obligation",
     )
